@@ -30,6 +30,7 @@ K_STARVED = 'C11/warmup-cold-rate-below-one-token/starved-forever'
 K_NEVERCOLD = 'C11/warmup-warningToken-zero/never-cold'
 K_STUCK = 'C11/warmup-tokens-rest-on-warning-line/not-cold-after-idle'
 K_STARVED_EDGE = 'C11/warmup-cold-rate-exactly-one-token/float-rounds-below-one/starved-forever'
+K_LONGWIN = 'C11/warmup-stat-interval-above-one-second/never-warms-up'
 K_NOTRECOOLED = 'C11/warmup-threshold-below-coldFactor/never-refilled-above-warning-line/not-cold-after-idle'
 
 
@@ -43,6 +44,12 @@ def wu_params(cfg):
 
 
 def wu_class(cfg):
+    """class of WarmUpOps; a statistic window longer than a second makes an otherwise healthy rule `long-window'"""
+    base = wu_base(cfg)
+    return 'long-window' if base == 'healthy' and cfg.get('si', 1000) > 1000 else base
+
+
+def wu_base(cfg):
     tn, td, p, cold, W, M = wu_params(cfg)
     if tn * (M - W) == 0:
         return 'degenerate'
@@ -67,8 +74,12 @@ def classify(c, scn, exp):
         # a mismatch after a reload: the class of the rule in force; E5 (warmer than the history justifies) is E2's clause there
         cfg = dict(tn=e['rule'][0], td=e['rule'][1], p=e['rule'][2], c=e['rule'][3])
         why = 'E2' if why == 'E5' else why
-    cls = wu_class(cfg)
+    cls = wu_base(cfg)
     W = wu_params(cfg)[4]
+    if scn[0].get('si', 1000) > 1000 and why == 'E3' and cls in ('healthy', 'cold-below-one', 'never-cold'):
+        # a statistic window longer than a second: the previous QPS (per second) of the cold rate stays below uint32(T)/coldFactor,
+        # the bucket is refilled faster than it is drained and the rule never warms up
+        return K_LONGWIN
     if cls == 'degenerate' and why in ('E1', 'E2'):
         return K_DEGENERATE
     if cls == 'cold-below-one' and why in ('E3', 'E4'):
@@ -155,8 +166,13 @@ def from_secs(hist, tr, rng, off=None, q=None):
             elif o['n'] == 1:
                 out.append(dict(op='burst', n=1))
         return out
-    off = rng.choice([0, 1, 7, 250, 499]) if off is None else off
+    si = cfg.get('si', 1000) or 1000
+    off = rng.choice([0, 1, 7, 250, 499] if si == 1000 else [0, 0, 1, 7]) if off is None else off
     out = [dict(op='new', tr=tr, kind='warmup', t=1000 + off, tn=cfg['tn'], td=cfg['td'], p=cfg['p'], c=cfg['c'])]
+    if si != 1000:
+        out[0]['si'] = si
+    # a statistic window shorter than a second (it divides 1000): the demand of a second arrives at the start of each window
+    k = 1000 // si if si < 1000 and 1000 % si == 0 else 1
     first = True
     pending = []
     for o in hist[1:]:
@@ -164,12 +180,15 @@ def from_secs(hist, tr, rng, off=None, q=None):
             pending.append(reload_op(o, rng, 0))         # the rule is replaced at the start of the next second (before its demand)
             continue
         if not first:
-            out.append(dict(op='tick', d=1000))
+            out.append(dict(op='tick', d=1000 - (k - 1) * si))
         first = False
         out += pending
         pending = []
-        if o['n'] > 0:
-            out.append(dict(op='burst', n=o['n']))
+        for w in range(k):
+            if w:
+                out.append(dict(op='tick', d=si))
+            if o['n'] > 0:
+                out.append(dict(op='burst', n=o['n']))
     return out + pending
 
 
@@ -182,6 +201,7 @@ def reload_op(o, rng, q):
     return r
 
 
+INTERVALS = [100, 250, 500, 500, 500, 1500, 2000, 2000, 2500, 5000, 10000]      # StatIntervalInMs other than the default
 THRESHOLDS = [(0, 1), (1, 4), (1, 2), (3, 4), (1, 1), (3, 2), (2, 1), (5, 2), (3, 1), (4, 1), (5, 1), (6, 1), (7, 1), (8, 1),
               (10, 1), (12, 1), (15, 2), (16, 1)]
 PERIODS = [1, 1, 2, 2, 3, 4, 5, 6]
@@ -198,6 +218,8 @@ def random_warmup(c, n, first_tr):
         T = tn // td
         thr = rng.random() < 0.3          # the same rule enforced by the throttling checker
         x = rng.random()
+        # the statistic interval of the rule (reject rules): sub-second, non-whole seconds, several seconds
+        si = rng.choice(INTERVALS) if not thr and rng.random() < 0.3 else 1000
         if thr and x >= 0.75:
             # free-running single-token requests (the pacing clauses E1, E2, E4; saturation is never established)
             s = [dict(op='new', tr=tr, kind='warmup', t=rng.choice([1, 500, 999, 1000, 1234]), tn=tn, td=td, p=p, c=cf, cb=1,
@@ -211,10 +233,10 @@ def random_warmup(c, n, first_tr):
             scns.append(s)
         elif x < 0.75:
             # phases, every request in the first half of its second
-            hist = [dict(tn=tn, td=td, p=p, c=cf, cb=1 if thr else 0)]
+            hist = [dict(tn=tn, td=td, p=p, c=cf, cb=1 if thr else 0, si=si)]
             for _ in range(rng.randint(2, 4)):
                 kind = rng.choice(['sat', 'sat', 'idle', 'steady', 'rand'])
-                k = rng.choice([1, 2, p + 1, 2 * p + 3, 2 * p + 6])
+                k = rng.choice([1, 2, p + 1, 2 * p + 3 + (si + 999) // 1000 * (si > 1000), 2 * p + 6])
                 for _ in range(k):
                     nreq = dict(sat=T + 2, idle=0, steady=1, rand=rng.randint(0, T + 2))[kind]
                     hist.append(dict(n=nreq, pace=True) if kind == 'sat' else dict(n=nreq, burst=True))
@@ -222,6 +244,8 @@ def random_warmup(c, n, first_tr):
         else:
             # free-running: any time, any batch
             s = [dict(op='new', tr=tr, kind='warmup', t=rng.choice([1, 500, 999, 1000, 1234]), tn=tn, td=td, p=p, c=cf)]
+            if si != 1000:
+                s[0]['si'] = si
             for _ in range(rng.randint(20, 120)):
                 x = rng.random()
                 if x < 0.6:
@@ -241,6 +265,14 @@ def fixed_warmup(first_tr):
                              (10, 1, 2, 3, 12), (3, 1, 5, 2, 5)]:
         hist = [dict(tn=tn, td=td, p=p, c=cf)] + [dict(n=n)] * (2 * p + 8)
         out.append(from_secs(hist, first_tr + len(out), None, off=7))
+    # other statistic intervals: saturating demand from the load on for longer than the warm-up, an idle period, demand again
+    # (cold start, warm-up, cold again); sub-second windows, non-whole and whole seconds (the latter: known finding)
+    for tn, td, p, cf, si in [(12, 1, 2, 3, 500), (15, 1, 3, 3, 500), (10, 1, 2, 2, 250), (16, 1, 1, 4, 100), (9, 1, 2, 0, 500), (12, 1, 2, 3, 2000),
+                              (10, 1, 1, 3, 5000), (12, 1, 2, 3, 1500), (15, 2, 2, 3, 500)]:
+        n = tn // td + 2
+        m = (si + 999) // 1000 if si > 1000 else 0
+        hist = [dict(tn=tn, td=td, p=p, c=cf, si=si)] + [dict(n=n)] * (2 * p + 6 + m) + [dict(n=0)] * (2 * p + 3 + m) + [dict(n=n)] * 3
+        out.append(from_secs(hist, first_tr + len(out), None, off=0))
     # throttling rules (healthy configurations) under saturating demand for longer than the warm-up: whole and fractional
     # thresholds, default cold factor, queueing from one polling step to "every request waits"
     for tn, td, p, cf, q, off in [(10, 1, 2, 3, 20, 0), (4, 1, 1, 2, 1, 7), (5, 1, 3, 0, 2000, 0), (16, 1, 4, 4, 5, 1), (5, 2, 2, 2, 50, 0),
@@ -380,6 +412,8 @@ def random_mem(c, n, first_tr):
         if rng.random() < 0.3:
             # the same rule enforced by the throttling checker: a probe is one second of saturating demand (paced admissions)
             s[0].update(cb=1, q=rng.choice([1, 5, 50, 500]))
+        elif rng.random() < 0.3:
+            s[0]['si'] = rng.choice([100, 500, 500, 1500, 2000, 5000])     # another statistic interval (the probe waits for an empty window)
         cand = [-1, 0, lw - 1, lw, lw + 1, hw - 1, hw, hw + 1, 2 * hw, (lw + hw) // 2] + [rng.randint(lw, hw) for _ in range(6)]
         nprobe = rng.randint(5, 12)
         reload_at = set(rng.sample(range(1, nprobe), rng.randint(1, 2))) if rng.random() < 0.35 else set()
@@ -768,7 +802,7 @@ def check(c, tier, replay):
         by_cls.setdefault(cls, []).append(hh)
     c.cov['leads'] = {k: len(v) for k, v in by_cls.items()}
     c.log('S1 leads (states in which the transcription leaves the envelope), shortest history per configuration and clause: %s' % c.cov['leads'])
-    for cls in ('degenerate', 'cold-below-one', 'never-cold'):
+    for cls in ('degenerate', 'cold-below-one', 'never-cold', 'long-window'):
         if not by_cls.get(cls):
             raise MachineryError('lead run produced no history for the class %s (vacuous)' % cls)
     if by_cls.get('healthy'):
@@ -861,7 +895,8 @@ def check(c, tier, replay):
                      'memory-adaptive rules with probes (%d); non-trivial = distinct scenario that (warm-up) issues requests and spans more '
                      'than the warm-up period + 2 s of virtual time, or (memory-adaptive) probes at least two readings strictly between the '
                      'water marks' % (len(lead_scns), len(sim_scns), nrand, nmem))
-    c.cov['warmup_classes'] = {k: sum(1 for s in allwu if wu_class(s[0]) == k) for k in ('healthy', 'degenerate', 'cold-below-one', 'never-cold')}
+    c.cov['warmup_classes'] = {k: sum(1 for s in allwu if wu_class(s[0]) == k) for k in ('healthy', 'degenerate', 'cold-below-one', 'never-cold', 'long-window')}
+    c.cov['stat_intervals'] = {str(i): sum(1 for s in allwu + mem_scns if (s[0].get('si') or 1000) == i) for i in sorted(set([1000] + INTERVALS))}
     c.cov['reloads'] = dict(warmup_histories_with_reload=len(rl_scns), tlc_simulated=len(simrl), directed=len(fx), random=nrr,
                             reload_events=sum(1 for s in rl_scns for o in s if o['op'] == 'reload'),
                             identical_reloads=sum(1 for s in rl_scns for k, o in enumerate(s) if o['op'] == 'reload' and same_as_before(s, k)),
